@@ -1,4 +1,5 @@
 import VaxisModel.Model.SimpleList
+import VaxisModel.Model.DynList
 import VaxisModel.Gen.ListFacts
 
 /-! The instantiation of the list models with the facts regenerated from the source. -/
@@ -16,3 +17,10 @@ def gen : Rhs where
   drawEmptyGuard := Gen.ListFacts.drawEmptyGuard
 
 end VaxisModel.Model.SimpleList
+
+namespace VaxisModel.Model.DynList
+
+/-- The repair facts as found in vxfw/list/list.go now. -/
+def genFacts : Facts := { cursorGuard := Gen.ListFacts.dynCursorGuard, insertStops := Gen.ListFacts.dynInsertStops }
+
+end VaxisModel.Model.DynList
